@@ -220,6 +220,11 @@ Proof.
 Qed.
 
 (* ---- self-checks of the generated file ---- *)
+(* every parameter of every overload answers alike for all representatives of a kind - in
+   particular strings that look like dates, numerals, keywords or durations are strings *)
+Lemma rows_uniform_checked : gen_rows_uniform = true.
+Proof. reflexivity. Qed.
+
 Lemma gen_kinds_ok : gen_kinds = all_kinds.
 Proof. reflexivity. Qed.
 
